@@ -2,6 +2,7 @@ package valsim
 
 import (
 	"encoding/hex"
+	"fmt"
 	"math/big"
 	"sort"
 
@@ -17,6 +18,9 @@ type draft struct {
 	ins    []*uinfo                                           // per input: the spent output (nil for special / unknown)
 	maps   func(h crypto.Hash) []map[uint16]*crypto.Signature // overrides the default per-input signing
 	noSigs bool                                               // node remove: no signature maps at all
+	// sigShape != "": the single signature map sigs[0] is reshaped: its one valid
+	// signature sits under another index, or the map has two / zero entries, or is nil
+	sigShape string
 }
 
 var boundaryExtra = []int{0, 1, 31, 32, 33, 63, 64, 65, 95, 96, 97, 128, 129, 160, 161, 255, 256, 257}
@@ -468,6 +472,148 @@ func (w *World) custodianUpdate() *draft {
 	return &draft{kind: "custodian-update", tx: tx, ins: l}
 }
 
+// ---- directed families ------------------------------------------------------------------
+
+var sigShapes = []string{"idx1", "idx2", "idx65535", "two", "two-no-zero", "empty", "nil"}
+
+// fully valid deposit / node accept / node cancel scenarios (every check before the
+// validator's use of sigs[0][0] passes) whose single signature map is reshaped
+func (w *World) depositSigShape() *draft {
+	d := w.deposit()
+	d.kind = "deposit-sigshape"
+	d.sigShape = sigShapes[w.r.Intn(len(sigShapes))]
+	return d
+}
+
+func (w *World) acceptSigShape() *draft {
+	w.ensurePledging()
+	w.unlockAll()
+	in := w.pledgeUtxo()
+	tx := common.NewTransactionV5(common.XINAssetId)
+	w.addInputs(tx, []*uinfo{in})
+	tx.Outputs = append(tx.Outputs, &common.Output{Type: common.OutputTypeNodeAccept, Amount: in.u.Amount, Keys: []*crypto.Key{}})
+	tx.Extra = append([]byte{}, w.pledge.Extra...)
+	signer := w.pledgeKP
+	return &draft{kind: "node-accept-sigshape", tx: tx, ins: []*uinfo{in}, sigShape: sigShapes[w.r.Intn(len(sigShapes))],
+		maps: func(h crypto.Hash) []map[uint16]*crypto.Signature {
+			s := signer.priv.Sign(h)
+			return []map[uint16]*crypto.Signature{{0: &s}}
+		}}
+}
+
+// node cancel reaches its validator only when the pledge output is recorded as a
+// script output (an inconsistent view); with two keys and threshold 1 the input
+// stage accepts a signature under index 1 and the validator meets sigs[0][0] == nil
+func (w *World) cancelSigShape() *draft {
+	w.ensurePledging()
+	w.unlockAll()
+	in := w.pledgeUtxo()
+	k0, k1 := newKP(w.r), newKP(w.r)
+	p0, p1 := k0.pub, k1.pub
+	in.u.Type = common.OutputTypeScript
+	in.u.Keys = []*crypto.Key{&p0, &p1}
+	in.u.Script = common.NewThresholdScript(1)
+	in.u.Mask = newKP(w.r).pub
+	in.privs = []crypto.Key{k0.priv, k1.priv}
+	w.broken = "utxo-type"
+	d := w.nodeCancel()
+	d.kind = "node-cancel-sigshape"
+	shape := []string{"idx1", "two", "empty", "nil", "idx2"}[w.r.Intn(5)]
+	priv := k1.priv
+	d.sigShape = shape
+	d.maps = func(h crypto.Hash) []map[uint16]*crypto.Signature {
+		s := priv.Sign(h)
+		return []map[uint16]*crypto.Signature{{0: &s}}
+	}
+	return d
+}
+
+// word-boundary sums: every single amount stays below B = 2^k while the running sums
+// of the inputs and/or of the outputs cross B; outputs equal the inputs, exceed them by
+// exactly B or 2B, or fall short by B
+func (w *World) wordSum() *draft {
+	r := w.r
+	k := []uint{32, 63, 64, 64, 128}[r.Intn(5)]
+	B := new(big.Int).Lsh(big.NewInt(1), k)
+	small := func() *big.Int { return big.NewInt(int64(r.Range(1, 5))) }
+	below := func() *big.Int { // an amount in [1, B-1], often at the edge or exactly B/2
+		switch r.Intn(4) {
+		case 0:
+			return new(big.Int).Sub(B, small())
+		case 1:
+			return new(big.Int).Rsh(B, 1)
+		case 2:
+			return small()
+		}
+		v := r.Big(int(k))
+		if v.Sign() == 0 {
+			v.SetInt64(1)
+		}
+		return v
+	}
+	var ins []*big.Int
+	for i, n := 0, r.Range(1, 4); i < n; i++ {
+		ins = append(ins, below())
+	}
+	if r.Chance(1, 4) {
+		ins = []*big.Int{small()}
+	}
+	sin := new(big.Int)
+	for _, a := range ins {
+		sin.Add(sin, a)
+	}
+	rel := r.Intn(5)
+	sout := new(big.Int).Set(sin)
+	label := "balanced"
+	switch rel {
+	case 1:
+		sout.Add(sout, B)
+		label = "out=in+B"
+	case 2:
+		sout.Add(sout, new(big.Int).Lsh(B, 1))
+		label = "out=in+2B"
+	case 3:
+		if sin.Cmp(B) > 0 {
+			sout.Sub(sout, B)
+			label = "out=in-B"
+		}
+	}
+	// split sout into parts below B
+	var outs []*big.Int
+	rest := new(big.Int).Set(sout)
+	for rest.Cmp(B) >= 0 {
+		p := new(big.Int).Sub(B, small())
+		if r.Chance(1, 3) {
+			p = new(big.Int).Rsh(B, 1)
+		}
+		outs = append(outs, p)
+		rest.Sub(rest, p)
+	}
+	if rest.Sign() > 0 {
+		if rest.Cmp(big.NewInt(2)) > 0 && r.Bool() {
+			h := new(big.Int).Rsh(rest, 1)
+			outs = append(outs, h)
+			rest = new(big.Int).Sub(rest, h)
+		}
+		outs = append(outs, rest)
+	}
+	if len(outs) > 1 && r.Bool() {
+		outs[0], outs[len(outs)-1] = outs[len(outs)-1], outs[0]
+	}
+	asset := w.other
+	if r.Bool() {
+		asset = common.XINAssetId
+	}
+	l := w.fund(asset, ins)
+	tx := common.NewTransactionV5(asset)
+	w.addInputs(tx, l)
+	for _, p := range outs {
+		o, _ := w.scriptOutput(common.OutputTypeScript, p, 1, 1)
+		tx.Outputs = append(tx.Outputs, o)
+	}
+	return &draft{kind: fmt.Sprintf("wordsum-2^%d/%s", k, label), tx: tx, ins: l}
+}
+
 // ---- mutations --------------------------------------------------------------------------
 
 var outputTypes = []uint8{0x00, 0xa1, 0xa3, 0xa4, 0xa5, 0xa6, 0xa9, 0xaa, 0xb1, 0xb2, 0x01, 0x77, 0xff}
@@ -717,6 +863,35 @@ func (w *World) sign(d *draft, sigMut int) (*common.VersionedTransaction, string
 			ver.SignaturesMap = append(ver.SignaturesMap, m)
 		}
 	}
+	if d.sigShape != "" && len(ver.SignaturesMap) == 1 {
+		var one *crypto.Signature
+		for _, s := range ver.SignaturesMap[0] {
+			one = s
+		}
+		if one == nil {
+			s := signWith(newKP(r).priv, h)
+			one = &s
+		}
+		switch d.sigShape {
+		case "idx1":
+			ver.SignaturesMap[0] = map[uint16]*crypto.Signature{1: one}
+		case "idx2":
+			ver.SignaturesMap[0] = map[uint16]*crypto.Signature{2: one}
+		case "idx65535":
+			ver.SignaturesMap[0] = map[uint16]*crypto.Signature{0xFFFF: one}
+		case "two":
+			s := signWith(newKP(r).priv, h)
+			ver.SignaturesMap[0] = map[uint16]*crypto.Signature{0: one, 1: &s}
+		case "two-no-zero":
+			s := signWith(newKP(r).priv, h)
+			ver.SignaturesMap[0] = map[uint16]*crypto.Signature{1: one, 7: &s}
+		case "empty":
+			ver.SignaturesMap[0] = map[uint16]*crypto.Signature{}
+		case "nil":
+			ver.SignaturesMap = nil
+		}
+		return ver, "sigshape-" + d.sigShape
+	}
 	sm := ver.SignaturesMap
 	switch sigMut {
 	case 2:
@@ -788,6 +963,7 @@ var builders = []func(*World) *draft{
 	(*World).mint, (*World).deposit, (*World).deposit, (*World).withdrawalSubmit, (*World).withdrawalClaim,
 	(*World).nodePledge, (*World).nodeAccept, (*World).nodeCancel, (*World).nodeCancel, (*World).nodeRemove,
 	(*World).removeOverScript, (*World).custodianUpdate, (*World).cancelOverScript,
+	(*World).wordSum, (*World).wordSum, (*World).depositSigShape, (*World).acceptSigShape, (*World).cancelSigShape,
 }
 
 // Generate draws one case.  Encoding a structurally impossible transaction
@@ -905,6 +1081,37 @@ func Corpus(r *vh.Rand) []Case {
 	add("node-remove", (*World).nodeRemove, nil)
 	add("custodian-update", (*World).custodianUpdate, nil)
 	add("cancel-over-script", (*World).cancelOverScript, nil)
+	for _, sh := range sigShapes {
+		sh := sh
+		add("deposit-sig-"+sh, (*World).depositSigShape, func(d *draft) { d.sigShape = sh })
+		add("node-accept-sig-"+sh, (*World).acceptSigShape, func(d *draft) { d.sigShape = sh })
+	}
+	for _, sh := range []string{"idx1", "two", "empty"} {
+		sh := sh
+		add("node-cancel-sig-"+sh, (*World).cancelSigShape, func(d *draft) { d.sigShape = sh })
+	}
+	// word-boundary sums: in = 1 unit, out = 2^63 + 2^63 + 1 (differs by exactly 2^64), and friends
+	p63 := new(big.Int).Lsh(big.NewInt(1), 63)
+	p64m1 := new(big.Int).Sub(new(big.Int).Lsh(big.NewInt(1), 64), big.NewInt(1))
+	p31 := new(big.Int).Lsh(big.NewInt(1), 31)
+	wordCase := func(name string, ins, outs []*big.Int) {
+		add(name, func(w *World) *draft {
+			l := w.fund(w.other, ins)
+			tx := common.NewTransactionV5(w.other)
+			w.addInputs(tx, l)
+			for _, p := range outs {
+				o, _ := w.scriptOutput(common.OutputTypeScript, p, 1, 1)
+				tx.Outputs = append(tx.Outputs, o)
+			}
+			return &draft{kind: name, tx: tx, ins: l}
+		}, nil)
+	}
+	wordCase("wordsum-in1-out-2^63+2^63+1", []*big.Int{big.NewInt(1)}, []*big.Int{p63, p63, big.NewInt(1)})
+	wordCase("wordsum-in-2^63+2^63+1-out1", []*big.Int{p63, p63, big.NewInt(1)}, []*big.Int{big.NewInt(1)})
+	wordCase("wordsum-balanced-cross-2^64", []*big.Int{p64m1, big.NewInt(5)}, []*big.Int{p63, p63, big.NewInt(4)})
+	wordCase("wordsum-in1-out-2^63+1", []*big.Int{big.NewInt(1)}, []*big.Int{p63, big.NewInt(1)})
+	wordCase("wordsum-in3-out-2^32+3", []*big.Int{big.NewInt(3)}, []*big.Int{p31, p31, big.NewInt(3)})
+	wordCase("wordsum-in-2^64+2-out2", []*big.Int{p64m1, big.NewInt(3)}, []*big.Int{big.NewInt(2)})
 	add("mint-plus-ordinary-input", (*World).transfer, func(d *draft) {
 		d.tx.Inputs = append(d.tx.Inputs, &common.Input{Mint: &common.MintData{Group: "UNIVERSAL", Batch: 1 << 40, Amount: integer(sumOutputs(d.tx))}})
 		d.ins = append(d.ins, nil)
